@@ -707,10 +707,25 @@ class Emitter:
         return self.expr(e.e, env, k1)
 
     def e_range(self, e, env, k):
+        hook = self.v.get("range_hook")
+        if hook is not None:
+            # optional vocabulary key `range_hook`: callable(em, e, env, k) for a range used as a value
+            return hook(self, e, env, k)
         raise EmitError("range expression outside an index / for loop")
 
     def e_structlit(self, e, env, k):
         name = e.segs[-1]
+        sv = self.struct_variant(e.segs)
+        if sv is not None:
+            # `Enum::Variant { field: value, .. }` (optional enum key `struct_variants`): the values are evaluated in
+            # the order written, the constructor takes them in the declared order
+            ctor, fnames, ftys = sv
+            ename = self.self_struct if e.segs[-2] == "Self" else e.segs[-2]
+            if e.base is not None or sorted(f for f, _x in e.fields) != sorted(fnames):
+                raise EmitError("struct variant %s: fields %r, expected %r" % ("::".join(e.segs), [f for f, _x in e.fields], fnames))
+            written = [f for f, _x in e.fields]
+            return self.exprs([x for _f, x in e.fields], env,
+                              lambda ts, tys, env1: k("(%s %s)" % (ctor, " ".join(ts[written.index(f)] for f in fnames)), ("enum", ename), env1))
         if name == "Self":
             name = self.self_struct
         st = self.v.get("structs", {}).get(name)
@@ -1052,6 +1067,23 @@ class Emitter:
                 raise EmitError("pattern %s: %d fields, the vocabulary models %s" % (pat.segs[-1], len(pat.elems), sorted(st["fields"])))
             tys = tuple(st["fields"][str(i)][2] for i in range(len(pat.elems)))
             return self.bind_pattern(N("ptuple", elems=pat.elems), term, ("tuple", tys), env, k)
+        if pat.kind == "pstruct" and self.v.get("structs", {}).get(pat.segs[-1], {}).get("fields") and not pat.rest:
+            # `let SGR { fg, bg, .. } = sgr;` on a vocabulary struct (named fields, all of them): every field pattern is
+            # bound to the field's getter applied to the value
+            st = self.v["structs"][pat.segs[-1]]
+            if ty != ("struct", pat.segs[-1]) and ty != UNKNOWN:
+                raise EmitError("pattern %s against a value of type %r" % (pat.segs[-1], ty))
+            if sorted(f for f, _p in pat.fields) != sorted(st["fields"]):
+                raise EmitError("pattern %s: fields %r, the vocabulary models %s" % (pat.segs[-1], [f for f, _p in pat.fields], sorted(st["fields"])))
+            flds = list(pat.fields)
+
+            def go_f(j, envx):
+                if j == len(flds):
+                    return k(envx)
+                f, p = flds[j]
+                getter, _setter, fty = st["fields"][f]
+                return self.bind_pattern(p, "(%s %s)" % (getter, term), fty, envx, lambda e3: go_f(j + 1, e3))
+            return go_f(0, env)
         raise EmitError("refutable or unsupported pattern %s in let" % pat.kind)
 
     def let_stmt(self, s, env, rest):
@@ -1255,7 +1287,21 @@ class Emitter:
             return all(self.pat_is_ctor_like(x, UNKNOWN) for x in p.elems)
         if k == "por":
             return all(self.pat_is_ctor_like(x, ty) for x in p.alts)
+        if k == "pstruct" and self.struct_variant(p.segs) is not None:
+            return all(self.pat_is_ctor_like(x, UNKNOWN) for _f, x in p.fields)
         return False
+
+    def struct_variant(self, segs):
+        """optional enum key `struct_variants: {variant: ([field names], [field types])}`: a variant with NAMED fields
+        (`Line::Control { name, args }`) whose Gallina constructor (`variants[variant]`) takes the fields in that order.
+        Returns (constructor, field names, field types) when `segs` names such a variant, else None"""
+        if len(segs) < 2:
+            return None
+        en = self.v.get("enums", {}).get(self.self_struct if segs[-2] == "Self" and self.self_struct else segs[-2])
+        if en is None or segs[-1] not in en.get("struct_variants", {}) or segs[-1] not in en["variants"]:
+            return None
+        names, tys = en["struct_variants"][segs[-1]]
+        return en["variants"][segs[-1]], list(names), list(tys)
 
     def payload_variant(self, p):
         """(coq constructor, payload types) when the tuple-struct pattern names a data-carrying enum variant of the vocabulary"""
@@ -1289,9 +1335,26 @@ class Emitter:
         if k == "pref":
             return self.coq_pattern(p.inner, ty, binds)
         if k == "pident":
+            pn = getattr(self, "por_names", None)
+            if pn is not None:
+                # a later alternative of an or-pattern: the variable gets the name the first alternative gave it
+                if p.name not in pn:
+                    raise EmitError("or-pattern: variable %s is not bound in every alternative" % p.name)
+                binds.append((p.name, pn[p.name], ty, p.mut))
+                return pn[p.name]
             n = self.fresh(p.name)
             binds.append((p.name, n, ty, p.mut))
             return n
+        if k == "pstruct":
+            # `Enum::Variant { field, field: pat, .. }` of an enum with `struct_variants`
+            sv = self.struct_variant(p.segs)
+            if sv is None:
+                raise EmitError("struct pattern %s: not a struct variant of the vocabulary" % "::".join(p.segs))
+            ctor, fnames, ftys = sv
+            given = dict(p.fields)
+            if len(given) != len(p.fields) or not set(given) <= set(fnames) or (not p.rest and set(given) != set(fnames)):
+                raise EmitError("struct pattern %s: fields %r, the vocabulary models %r" % ("::".join(p.segs), [f for f, _x in p.fields], fnames))
+            return "(%s %s)" % (ctor, " ".join(self.coq_pattern(given[f], t, binds) if f in given else "_" for f, t in zip(fnames, ftys)))
         if k == "ppath":
             name = p.segs[-1]
             if name == "None":
@@ -1330,7 +1393,25 @@ class Emitter:
             tys = ty[1] if ty[0] == "tuple" and len(ty[1]) == len(p.elems) else [UNKNOWN] * len(p.elems)
             return "(" + ", ".join(self.coq_pattern(x, t, binds) for x, t in zip(p.elems, tys)) + ")"
         if k == "por":
-            return " | ".join(self.coq_pattern(x, ty, binds) for x in p.alts)
+            # every alternative must bind the same variables (with the same types): the first alternative names
+            # them, the others reuse the names (`A(text) | B(text) => ..` -> `| (A text) | (B text) => ..`)
+            b0 = len(binds)
+            parts = [self.coq_pattern(p.alts[0], ty, binds)]
+            first = {rn: (cn, t) for rn, cn, t, _m in binds[b0:]}
+            outer = getattr(self, "por_names", None)
+            for x in p.alts[1:]:
+                if not first and outer is None:
+                    parts.append(self.coq_pattern(x, ty, binds))
+                    continue
+                tmp = []
+                self.por_names = {rn: cn for rn, (cn, _t) in first.items()}
+                try:
+                    parts.append(self.coq_pattern(x, ty, tmp))
+                finally:
+                    self.por_names = outer
+                if {rn: t for rn, _cn, t, _m in tmp} != {rn: t for rn, (_cn, t) in first.items()}:
+                    raise EmitError("or-pattern: the alternatives do not bind the same variables at the same types")
+            return " | ".join(parts)
         raise EmitError("pattern %s in a native match" % k)
 
     def pat_test(self, p, term, ty, binds):
